@@ -54,7 +54,10 @@ func diffOptNoOpt(c *ev.Ctx, id, class, script string, vars map[string]model.Val
 var c03Frags = []string{"1 + 2", "2 * 3 - 1", "7 - 9", "65533 + 1", "65534 + 1", "65535 - 1", "256 * 256", "255 * 257", "8 / 2", "7 / 2", "0 / 5", "3 == 3", "3 == 4", "1 != 1", "2 != 3", "true", "false", "0", "1", "65534", "65535", "(1 + 2) * 3", "1 + 2 * 3", "10 - 2 - 3", "100 / 10 / 5", "2 * 3 == 6", "1 + 1 != 2", "255", "256", "257", "512", "4096", "65280", "128 + 128", "16 * 16", "256 == 256", "256 != 512", "1 - 2", "300 * 300", "0 - 1 + 2", "5 + (1 - 2) * 3", "1 / 0", "2 - 2", "256 - 256",
 	// literals that live in the constant pool (large integers, floats, strings, regexps), next to each other under a comparison or an operator
 	"70000 == 70000", "70000 == 70000.0", "70000.0 != 70000", "70000 != 70001", "1.5 == 1.5", "1.5 != 2.5", `"a" == "a"`, `"a" != "b"`, `"1" != 1.5`, `"70000" == 70000`, `"a" == /a/`, `/a/ == /a/`, `"ab" ~= /b/`, `"ab" !~ /b/`,
-	"70000 + 70000", "70000 * 2", "2 * 70000", "70000 - 70000", "70000 / 70000", "1.5 + 1.5", "2.5 * 2", `"a" + "b"`, "70000 < 70001", "1.5 < 2.5", `"a" < "b"`, "7 % 3", "7 % 0", "2 ** 3", "!0", "!1", "!true", "-1", "true && false", "true || false", "1 && 0"}
+	"70000 + 70000", "70000 * 2", "2 * 70000", "70000 - 70000", "70000 / 70000", "1.5 + 1.5", "2.5 * 2", `"a" + "b"`, "70000 < 70001", "1.5 < 2.5", `"a" < "b"`, "7 % 3", "7 % 0", "2 ** 3", "!0", "!1", "!true", "-1", "true && false", "true || false", "1 && 0",
+	// constant powers, remainders and products whose exact value does not fit (whatever the machine computes, folding must compute the same)
+	"2 ** 64", "4 ** 32", "16 ** 16", "10 ** 64", "6 ** 64", "2 ** 63", "2 ** 62", "3 ** 40", "7 ** 23", "0 ** 0", "2 ** 0", "0 ** 5", "1 ** 65534", "65534 ** 2", "65534 ** 4", "2 ** 3 ** 2", "2 ** 10 % 7", "9 % 4", "65534 % 7", "0 % 3",
+	"65534 * 65534", "65534 * 65534 * 65534 * 65534 * 65534", "65534 + 65534", "0 - 65534 - 65534", "65534 / 3", "1 / 3", "0 / 0", "65534 * 65534 / 65534", "2 ** 64 == 0", "2 ** 70 != 0", "7 / (2 ** 64)"}
 
 // contexts: %F %G %H are replaced by fragments
 var c03Ctx = []string{
